@@ -21,6 +21,10 @@
 //! transcript_bufread(kind, src: impl BufRead, side, deep)          BufRead-based readers use `src` directly
 //! transcript_read_variant / transcript_bufread_variant(kind, variant, ...)   Variant::{Primary, Eager, Indexer}
 //! last_error_message() -> Option<String>                           text behind the last "ERR:" element (thread local)
+//! render::{sam_header, vcf_header, alignment_record, variant_record, gff_line, gff_line_buf, gtf_line, gtf_line_buf,
+//!          fasta_element, fastq_element, cram_container, index_element, Deep, deep_alignment, deep_variant, deep_feature,
+//!          deep_bed}                                               the element builders (for async twins: same values => same strings)
+//! read::{BGZF_READ_PATTERN, BgzfReadOp, ByteDigest}                the call pattern and the D: digest of the Bgzf driver
 //!
 //! write_history(item, sink: impl Write) -> io::Result<()>
 //! prepare_write(item) -> io::Result<Prepared>; write_prepared(&Prepared, sink)   (decode once, replay many times)
@@ -111,7 +115,7 @@ use std::{
 
 pub use bounds::{CramLayout, cram_layout};
 pub use items::{BuildNote, KnownProblem};
-pub use read::last_error_message;
+pub use read::{BGZF_READ_PATTERN, BgzfReadOp, ByteDigest, last_error_message};
 pub use write::{Model, Prepared, prepare_write, write_history_bgzf_drop, write_history_bgzf_mt, write_prepared};
 
 #[derive(Clone, Copy, Debug, PartialEq, Eq, Hash, PartialOrd, Ord)]
